@@ -91,7 +91,12 @@ func genPrio(r *hx.Rand) uint64 {
 	return uint64(r.Intn(8))
 }
 
+var longHist = false // thorough tier: some long histories
+
 func histLen(r *hx.Rand) int {
+	if longHist && r.Chance(1, 8) {
+		return r.Range(60, 250)
+	}
 	switch r.Intn(4) {
 	case 0:
 		return r.Range(1, 6)
@@ -316,9 +321,10 @@ func searchCases(tier string, r *hx.Rand) []*hx.Case {
 
 func (eng) Generate(mode, tier string, r *hx.Rand) []*hx.Case {
 	cs := searchCases(tier, r)
-	per := 140
+	per := 320
 	if tier == "thorough" {
-		per = 1500
+		per = 5000
+		longHist = true
 	}
 	for i := 0; i < per; i++ {
 		cs = append(cs, genHeap(r.Fork()), genPPQ(r.Fork()), genZip(r.Fork()), genCache(r.Fork()), genSet(r.Fork()), genSMap(r.Fork()),
